@@ -247,6 +247,26 @@ def c01_wk(ctx, case):
 
 
 # --------------------------------------------------------------------------
+# the smallest records, enumerated (lag = N-1 = 0, 1, 2, 3)
+def enum_wk_small(tier):
+    for N in (1, 2, 3, 4):
+        for cplx in (False, True):
+            for method in ("xcorr", "CORRELATION"):
+                for nfft in sorted({max(1, 2 * N - 1), 2 * N, 2 * N + 1, 8, 9}):
+                    re = [1.5, -2.0, 0.25, 3.0][:N]
+                    x = {"kind": "explicit", "n": N, "complex": cplx, "re": re}
+                    if cplx:
+                        x["im"] = [0.5, 1.0, -1.5, 2.0][:N]
+                    yield {"x": x, "declare_complex": False, "nfft": nfft, "method": method, "window": "rectangular"}
+
+
+@sub("C01.wk_small", enum=enum_wk_small, exhaustive=True,
+     doc="the Wiener-Khinchin clause for N = 1..4 (lag 0..3), real and complex, both back ends, NFFT = 2N-1, 2N, 2N+1, 8, 9")
+def c01_wk_small(ctx, case):
+    c01_wk(ctx, case)
+
+
+# --------------------------------------------------------------------------
 # (d) 2-D input: column-wise
 # --------------------------------------------------------------------------
 @st.composite
